@@ -13,7 +13,7 @@ def leg(test, module="rt", quick=(1000, 1), thorough=(10000, 16), race=False, ti
                 timeout_s=timeout_s, env=env or {}, fixed=fixed)
 
 HOOK_COMMITS = ["dd392ad"]
-FIX_COMMITS = ["e449346", "ba22cb7", "3039ef0", "273eefb", "cca5970", "2577b44", "d6810d1", "e1987c3", "b1932c7", "c49aa17", "d9e8025", "42ec2de", "5135650", "011d02a", "09939f4", "4fe35d1", "cb91a35", "8687ea4", "deec4d9", "bd99941", "b8998ee", "e4ab411", "6d4587f", "a4a4c01", "5b894d6", "c7c1fc7", "534bf60", "9872ec0", "02ec8c1", "d2443a0", "29e0a7c", "2122292"]
+FIX_COMMITS = ["e449346", "ba22cb7", "3039ef0", "273eefb", "cca5970", "2577b44", "d6810d1", "e1987c3", "b1932c7", "c49aa17", "d9e8025", "42ec2de", "5135650", "011d02a", "09939f4", "4fe35d1", "cb91a35", "8687ea4", "deec4d9", "bd99941", "b8998ee", "e4ab411", "6d4587f", "a4a4c01", "5b894d6", "c7c1fc7", "534bf60", "9872ec0", "02ec8c1", "d2443a0", "29e0a7c", "2122292", "144247a", "e0d0217"]
 
 ALL_PROPS = ["C%02d" % i for i in range(1, 21)]
 
@@ -25,8 +25,9 @@ CHECKS = {
             leg("TestC04Peer", quick=(500, 1), thorough=(5000, 4)),
             leg("TestC04Concurrent", quick=(300, 2), thorough=(5000, 4)),
         ],
+        fuzz=[dict(module="rt", target="FuzzC04Decode", seconds=120)],
         level="exploration",
-        technique="property-based testing (rapid): round trip against an independent reference codec written from protocol.md + differential with the Python runtime codec and contrib/frame_parser.py",
+        technique="property-based testing (rapid): round trip against an independent reference codec written from protocol.md + differential with the Python runtime codec and contrib/frame_parser.py; thorough tier: native go fuzzing (FuzzC04Decode) of the decoders against the reference decoder",
         rule=("Header maps (0..24 entries; names/values empty, ASCII, multi-byte UTF-8, arbitrary bytes, 100-300 bytes, occasionally 70 KB) "
               "+ payload 0..200 bytes drawn by rapid. Non-trivial: >=2 headers, or an empty name/value, or a multi-byte rune, or a non-empty payload. "
               "Distinct: sha256 of (sorted pairs, payload)."),
@@ -44,8 +45,9 @@ CHECKS = {
             leg("TestC05Sync", quick=(4000, 4), thorough=(150000, 12), timeout_s=1800),
             leg("TestC05E2E", quick=(150, 4), thorough=(4000, 4), timeout_s=1800),
         ],
+        fuzz=[dict(module="rt", target="FuzzC05Sync", seconds=240)],
         level="exploration",
-        technique="property-based testing (rapid) with structure-aware mutation of valid frames at every receiving entry point; native go fuzzing in the thorough tier",
+        technique="property-based testing (rapid) with structure-aware mutation of valid frames at every receiving entry point; native go fuzzing (coverage-guided, FuzzC05Sync) of the synchronous entry points in the thorough tier",
         rule=("Valid request/response/pub-sub frames (binary, compact, JSON) mutated: any 4-byte size field set to 0, 1, exact+-1, len, len+1, "
               "0x7fffffff, 0x80000000, 0xffffffff...; truncation at any byte; duplicated/dropped ranges; version byte; bit flips; pure random bytes. "
               "Non-trivial: a size-field mutation, or input that passes the first length/version check of its entry point. Distinct: sha256(entry, bytes)."),
@@ -225,8 +227,9 @@ CHECKS = {
         title="The compiler is total: valid IDL yields valid code, bad input a diagnostic",
         legs=[leg("TestC11Valid", module="idl", quick=(250, 4), thorough=(5000, 12), timeout_s=3000, prefixes=["c11."]),
               leg("TestC11Invalid", module="idl", quick=(400, 4), thorough=(20000, 4), timeout_s=3000)],
+        fuzz=[dict(module="idl", target="FuzzC11Text", seconds=420)],
         level="exploration",
-        technique="property-based testing (rapid) over generated valid programs x targets x options with per-target well-formedness oracles (go/parser + go/types, javac parser, CPython ast, JSON, HTML, Dart lexical balance); mutation-based and native fuzzing for invalid input",
+        technique="property-based testing (rapid) over generated valid programs x targets x options with per-target well-formedness oracles (go/parser + go/types, javac parser, CPython ast, JSON, HTML, Dart lexical balance); mutation-based generation and, in the thorough tier, native go fuzzing (coverage-guided, FuzzC11Text) for arbitrary input text",
         rule=("Valid programs (as C10) x 1..5 of 28 target/option combinations (go, java, dart, py, py:asyncio, py:tornado, json, html and their options) x -delim x -r. "
               "Non-trivial: a program with a service or scope and (>=2 files or an option set). Distinct: sha256 of (text, targets, delim, recurse)."),
         level_text=("Exploration: in-process Compile must return nil without panicking for every target; every emitted file must be well-formed for its target. Invalid inputs (mutants, semantic violations) must make the CLI exit non-zero with a message and no Go runtime trace, promptly."),
